@@ -178,7 +178,9 @@ func runWatchCase(t *testing.T, o *Out, id, kind string, evs []watchEv, extIdx i
 					content += fmt.Sprintf("class %s implements Namespace {}\n", nme)
 				}
 			} else {
-				content = []string{"class {", "class A implements Namespace { related: { x: Undeclared[] } }", "/* unterminated"}[e.file%3]
+				content = []string{"class {", "class A implements Namespace { related: { x: Undeclared[] } }", "/* unterminated",
+					"import { Namespace } from \"@ory/keto-namespace-types\"\nclass Ok implements Namespace {}\nclass Broken implements Namespace { related: { x: Nope[] } }\n",
+					"class Ok2 implements Namespace {}\nclass"}[(e.file+ei)%5]
 			}
 		} else {
 			ext := exts[(e.file+extIdx)%3]
@@ -194,13 +196,17 @@ func runWatchCase(t *testing.T, o *Out, id, kind string, evs []watchEv, extIdx i
 				}
 			} else {
 				content = []string{"{", ": : :\n\t- x", "= ="}[(e.file+extIdx)%3]
+				// invalid versions: broken from the start, and a complete valid document
+				// followed by garbage
+				bad := fmt.Sprintf("Bad%d", ei)
 				switch ext {
 				case ".json":
-					content = "{"
+					content = []string{"{", fmt.Sprintf(`{"name": %q, "id": 9}}`, bad), fmt.Sprintf(`{"name": %q, "id": 9} trailing`, bad),
+						fmt.Sprintf(`{"name": %q, "id": 9}{"name": "Second"}`, bad), fmt.Sprintf(`{"name": %q, "id": "nine"}`, bad)}[ei%5]
 				case ".yaml":
-					content = "name: [unclosed"
+					content = []string{"name: [unclosed", fmt.Sprintf("name: %s\nid: 9\n  bad indent: [", bad), "- a\n- b\n: :"}[ei%3]
 				default:
-					content = "name = = ="
+					content = []string{"name = = =", fmt.Sprintf("name = %q\nid = 9\n[[[", bad), fmt.Sprintf("name = %q\nname = %q\n", bad, bad)}[ei%3]
 				}
 			}
 		}
